@@ -6,12 +6,10 @@ set -e
 ISO=/tmp/verif_iso
 WT=/tmp/iso_repo
 mkdir -p $ISO
-rsync -a --delete --exclude .git --exclude replays --exclude build/priv --exclude build/sweeps --exclude build/scratch /verif/ $ISO/
+rsync -a --delete --exclude .git --exclude replays --exclude build/priv --exclude build/sweeps --exclude build/scratch --exclude build/cargo /verif/ $ISO/ || [ $? -eq 24 ]
 if [ -d $WT ]; then git -C /repo worktree remove --force $WT; fi
 git -C /repo worktree add -f --detach $WT HEAD -q
 grep -rlI -e "/verif" -e "/repo" $ISO/tools $ISO/harness/Cargo.toml $ISO/harness/.cargo/config.toml 2>/dev/null | while read f; do
   sed -i "s#/verif#$ISO#g; s#/repo#$WT#g" "$f"
 done
-# the copied cargo target dir refers to /repo paths: force a rebuild of the harness in the copy
-rm -rf $ISO/build/cargo
 echo "iso ready: $ISO checks $WT at $(git -C $WT rev-parse --short HEAD)"
